@@ -21,6 +21,7 @@ import (
 	"time"
 
 	"go.minekube.com/gate/pkg/edition/java/proto/packet"
+	"go.minekube.com/gate/pkg/edition/java/proto/packet/chat"
 	"go.minekube.com/gate/pkg/edition/java/proto/packet/title"
 	"go.minekube.com/gate/pkg/edition/java/proto/state"
 	"go.minekube.com/gate/pkg/edition/java/proto/util/queue"
@@ -37,7 +38,22 @@ const (
 	idKeepAliveCfg  = 0x04
 	timesMagic      = 0x7E570000
 	holdLimit       = 1024 // "the holding queue is bounded"
+
+	// serverbound (what the proxy writes to a BACKEND connection), protocol 769
+	idChatAckPlaySB        = 0x04 // chat_ack, play only: VarInt offset
+	idClientSettingsPlaySB = 0x0C // client_information, play
+	idClientSettingsCfgSB  = 0x00 // client_information, configuration (serverbound only: no such clientbound packet)
+	ackMagic               = 0x5E000000
 )
+
+// nopHandler14 is a session handler without behaviour: the state changes that go through
+// SetActiveSessionHandler / SwitchSessionHandler need one per state.
+type nopHandler14 struct{}
+
+func (nopHandler14) HandlePacket(*proto.PacketContext) {}
+func (nopHandler14) Disconnected()                     {}
+func (nopHandler14) Activated()                        {}
+func (nopHandler14) Deactivated()                      {}
 
 // recConn14 records writes and never blocks.
 type recConn14 struct {
@@ -95,6 +111,9 @@ type h14 struct {
 	e        *dualrun.Env
 	base     *recConn14
 	mc       *minecraftConn
+	backend  bool // a proxy->backend connection (writes are serverbound)
+	hPlay    SessionHandler
+	hConfig  SessionHandler
 	mu       sync.Mutex
 	writes   []*wrec
 	states   []*srec
@@ -102,12 +121,24 @@ type h14 struct {
 	overflow bool // scenario expects that the bound may be hit
 }
 
-func new14(e *dualrun.Env, startInConfig bool) *h14 {
+func new14(e *dualrun.Env, startInConfig bool) *h14 { return new14x(e, startInConfig, false) }
+
+// new14x: backend=true builds the connection the proxy holds to a backend server (direction ClientBound:
+// it reads clientbound and WRITES serverbound packets; the holding queue then works on the serverbound
+// configuration registry).
+func new14x(e *dualrun.Env, startInConfig, backend bool) *h14 {
 	base := &recConn14{}
-	conn, _ := NewMinecraftConn(context.Background(), base, proto.ServerBound, time.Second, time.Second, -1, nil)
-	h := &h14{e: e, base: base, mc: conn.(*minecraftConn)}
+	dir := proto.ServerBound
+	if backend {
+		dir = proto.ClientBound
+	}
+	conn, _ := NewMinecraftConn(context.Background(), base, dir, time.Second, time.Second, -1, nil)
+	h := &h14{e: e, base: base, mc: conn.(*minecraftConn), backend: backend, hPlay: &nopHandler14{}, hConfig: &nopHandler14{}}
 	h.mc.SetProtocol(version.Minecraft_1_21_4.Protocol)
-	h.mc.SetState(state.Play)
+	// one session handler per state, as every real connection has (SetActiveSessionHandler switches the
+	// state exactly like SetState(Play) did here before)
+	h.mc.SetActiveSessionHandler(state.Play, h.hPlay)
+	h.mc.AddSessionHandler(state.Config, h.hConfig)
 	if startInConfig {
 		h.setState("SetState", true)
 	}
@@ -123,6 +154,12 @@ func (h *h14) pos() int {
 }
 
 func (h *h14) mkPacket(kind byte, w, seq int) proto.Packet {
+	if h.backend {
+		if kind == 'P' {
+			return &chat.ChatAcknowledgement{Offset: ackMagic + w<<12 + seq}
+		}
+		return &packet.ClientSettings{Locale: fmt.Sprintf("w%ds%d", w, seq), ViewDistance: 8, MainHand: 1}
+	}
 	if kind == 'P' {
 		return &title.Times{FadeIn: timesMagic + w, Stay: seq, FadeOut: 7}
 	}
@@ -162,12 +199,24 @@ func (h *h14) setState(via string, toConfig bool) {
 		h.mc.SetState(reg)
 	case "SetOutboundState":
 		h.mc.SetOutboundState(reg)
+	case "SetActiveSessionHandler": // what the client handlers do when the client acknowledges the switch
+		hd := h.hPlay
+		if toConfig {
+			hd = h.hConfig
+		}
+		h.mc.SetActiveSessionHandler(reg, hd)
+	case "SwitchSessionHandler":
+		if !h.mc.SwitchSessionHandler(reg) {
+			h.e.Fail("switch-refused", "SwitchSessionHandler(%v) = false although a handler is registered for that state", reg)
+		}
 	default:
 		panic(via)
 	}
 	rec.posRet = h.pos()
 	rec.ret = h.e.Tick()
+	h.mu.Lock()
 	h.inConfig = toConfig
+	h.mu.Unlock()
 }
 
 type frame14 struct {
@@ -207,6 +256,27 @@ func (h *h14) decode() ([]frame14, bool) {
 		pl := body[m:]
 		f := frame14{off: off, end: off + n + l, id: id}
 		switch {
+		case h.backend && id == idChatAckPlaySB:
+			v, n, ok := readVarint(pl)
+			if !ok || n != len(pl) || v&^0xffff != ackMagic {
+				h.e.Fail("stream/unknown-frame", "serverbound frame at offset %d: id=0x%x payload % x is not a chat_ack written here", off, id, pl)
+				return out, false
+			}
+			f.kind, f.writer, f.seq = 'P', (v-ackMagic)>>12, (v-ackMagic)&0xfff
+		case h.backend && (id == idClientSettingsPlaySB || id == idClientSettingsCfgSB):
+			l, n, ok := readVarint(pl)
+			if !ok || n+l > len(pl) {
+				h.e.Fail("stream/garbled", "bad client_information at offset %d", off)
+				return out, false
+			}
+			if _, err := fmt.Sscanf(string(pl[n:n+l]), "w%ds%d", &f.writer, &f.seq); err != nil {
+				h.e.Fail("stream/unknown-frame", "client_information at offset %d carries locale %q", off, pl[n:n+l])
+				return out, false
+			}
+			f.kind = 'K'
+		case h.backend:
+			h.e.Fail("stream/unknown-frame", "serverbound frame at offset %d: id=0x%x payload % x is none of the packets written", off, id, pl)
+			return out, false
 		case id == idTimesPlay && len(pl) == 12 && int(binary.BigEndian.Uint32(pl))&^0xffff == timesMagic:
 			f.kind, f.writer, f.seq = 'P', int(binary.BigEndian.Uint32(pl))-timesMagic, int(binary.BigEndian.Uint32(pl[4:]))
 		case (id == idKeepAlivePlay || id == idKeepAliveCfg) && len(pl) == 8:
@@ -463,6 +533,72 @@ func scenarios14() []dualrun.Scenario {
 			h := new14(e, false)
 			e.Go("w1", func() { h.write('P', 1, 1, true); h.write('P', 1, 2, true) })
 			e.Go("st", func() { h.mc.EnablePlayPacketQueue(); h.setState("SetState", true); h.setState("SetState", false) })
+			e.AtEnd(h.finish)
+		}},
+		// ---- the other API entry points that switch the state (what the session handlers really call) ----
+		{Name: "leave-config-SetActiveSessionHandler/1writer", Quick: U, Thorough: U, FreeQuick: 200, FreeThorough: 3000, Body: func(e *dualrun.Env) {
+			h := new14(e, true)
+			e.Go("w1", func() { h.write('P', 1, 1, true); h.write('K', 1, 2, true); h.write('P', 1, 3, true) })
+			e.Go("st", func() { h.setState("SetActiveSessionHandler", false) })
+			e.AtEnd(h.finish)
+		}},
+		{Name: "roundtrip-SwitchSessionHandler/1writer", Quick: 3, Thorough: U, FreeQuick: 200, FreeThorough: 3000, Body: func(e *dualrun.Env) {
+			h := new14(e, false)
+			e.Go("w1", func() { h.write('P', 1, 1, true); h.write('K', 1, 2, true); h.write('P', 1, 3, true) })
+			e.Go("st", func() { h.setState("SwitchSessionHandler", true); h.setState("SwitchSessionHandler", false) })
+			e.AtEnd(h.finish)
+		}},
+		// outbound side enters configuration first, the inbound state is still play: returning through
+		// SwitchSessionHandler(Play) hits its "handler already active" branch, which must still release
+		{Name: "outbound-config-then-SwitchSessionHandler(active-play)/1writer", Quick: U, Thorough: U, FreeQuick: 200, FreeThorough: 3000, Body: func(e *dualrun.Env) {
+			h := new14(e, false)
+			e.Go("w1", func() { h.write('P', 1, 1, true); h.write('P', 1, 2, true) })
+			e.Go("st", func() { h.setState("SetOutboundState", true); h.setState("SwitchSessionHandler", false) })
+			e.AtEnd(h.finish)
+		}},
+		// the proxy's real server-switch sequence on the client connection: switchToConfigState
+		// (SetOutboundState(Config)), client acknowledges (SetActiveSessionHandler(Config)), backend finished
+		// (SetOutboundState(Play)), client finished (SetActiveSessionHandler(Play))
+		{Name: "server-switch-sequence/1writer", Quick: 3, Thorough: U, FreeQuick: 200, FreeThorough: 3000, Body: func(e *dualrun.Env) {
+			h := new14(e, false)
+			e.Go("w1", func() { h.write('P', 1, 1, true); h.write('P', 1, 2, true); h.write('P', 1, 3, true) })
+			e.Go("st", func() {
+				h.setState("SetOutboundState", true)
+				h.setState("SetActiveSessionHandler", true)
+				h.setState("SetOutboundState", false)
+				h.setState("SetActiveSessionHandler", false)
+			})
+			e.AtEnd(h.finish)
+		}},
+		{Name: "server-switch-sequence/2writers", Quick: 2, Thorough: 4, FreeQuick: 200, FreeThorough: 3000, Body: func(e *dualrun.Env) {
+			h := new14(e, false)
+			e.Go("w1", func() { h.write('P', 1, 1, true); h.write('P', 1, 2, true) })
+			e.Go("w2", func() { h.write('P', 2, 1, false); h.write('K', 2, 2, true) })
+			e.Go("st", func() {
+				h.setState("SetOutboundState", true)
+				h.setState("SetActiveSessionHandler", true)
+				h.setState("SetOutboundState", false)
+				h.setState("SetActiveSessionHandler", false)
+			})
+			e.AtEnd(h.finish)
+		}},
+		// two goroutines leave configuration at the same time (the backend-finished path and the
+		// client-finished path) while a writer is active: released once, in order
+		{Name: "2-leavers/1writer", Quick: 3, Thorough: U, FreeQuick: 200, FreeThorough: 3000, Body: func(e *dualrun.Env) {
+			h := new14(e, true)
+			h.prefill(2)
+			e.Go("w1", func() { h.write('P', 1, 1, true); h.write('P', 1, 2, true) })
+			e.Go("st", func() { h.setState("SetOutboundState", false) })
+			e.Go("st2", func() { h.setState("SetActiveSessionHandler", false) })
+			e.AtEnd(h.finish)
+		}},
+		// ---- the other direction: the proxy's connection TO A BACKEND in configuration holds play-only
+		// SERVERBOUND packets (chat_ack) and writes configuration-valid serverbound packets
+		// (client_information, which exists only serverbound) immediately ----
+		{Name: "backend/roundtrip/1writer", Quick: 3, Thorough: U, FreeQuick: 200, FreeThorough: 3000, Body: func(e *dualrun.Env) {
+			h := new14x(e, false, true)
+			e.Go("w1", func() { h.write('P', 1, 1, true); h.write('K', 1, 2, true); h.write('P', 1, 3, true); h.write('K', 1, 4, true) })
+			e.Go("st", func() { h.setState("SwitchSessionHandler", true); h.setState("SwitchSessionHandler", false) })
 			e.AtEnd(h.finish)
 		}},
 		// ---- bound ----
